@@ -604,7 +604,7 @@ func runC14(c *Ctx) {
 	// the eight small-order points (canonical encodings) and non-canonical variants
 	small := []string{
 		"0100000000000000000000000000000000000000000000000000000000000000",
-		"ecffffffffffffffffffffffffffffffffffffffffffffffffffffffffffffff7f",
+		"ecffffffffffffffffffffffffffffffffffffffffffffffffffffffffffff7f",
 		"0000000000000000000000000000000000000000000000000000000000000000",
 		"0000000000000000000000000000000000000000000000000000000000000080",
 		"26e8958fc2b227b045c3f489f2ef98f0d5dfac05d3c63339b13802886d53fc05",
@@ -612,10 +612,10 @@ func runC14(c *Ctx) {
 		"c7176a703d4dd84fba3c0b760d10670f2a2053fa2c39ccc64ec7fd7792ac037a",
 		"c7176a703d4dd84fba3c0b760d10670f2a2053fa2c39ccc64ec7fd7792ac03fa",
 		"0100000000000000000000000000000000000000000000000000000000000080",   // identity with sign bit
-		"eeffffffffffffffffffffffffffffffffffffffffffffffffffffffffffffff7f", // y = p + 1
-		"edffffffffffffffffffffffffffffffffffffffffffffffffffffffffffffff7f", // y = p
-		"ffffffffffffffffffffffffffffffffffffffffffffffffffffffffffffffff7f",
-		"ffffffffffffffffffffffffffffffffffffffffffffffffffffffffffffffffff",
+		"eeffffffffffffffffffffffffffffffffffffffffffffffffffffffffffff7f", // y = p + 1
+		"edffffffffffffffffffffffffffffffffffffffffffffffffffffffffffff7f", // y = p
+		"ffffffffffffffffffffffffffffffffffffffffffffffffffffffffffffff7f",
+		"ffffffffffffffffffffffffffffffffffffffffffffffffffffffffffffffff",
 	}
 	for i := 0; i < n; i++ {
 		seed := r.Bytes(32)
@@ -714,6 +714,26 @@ func runC14(c *Ctx) {
 			verify(fmt.Sprintf("smallS+%dL", k), ident, msg, mk(x))
 		}
 		verify("smallS-1", ident, msg, mk(new(big.Int).Sub(t, big.NewInt(1))))
+	}
+	// signatures that verify and whose S is large but canonical (2^252 <= S < L, about 2^-127 of honest signatures): again
+	// under the identity key (and the order-2 key), R = [S]B from the math/big reference
+	{
+		B := edDecode(unhx("5866666666666666666666666666666666666666666666666666666666666666"))
+		two252 := new(big.Int).Lsh(big.NewInt(1), 252)
+		span := new(big.Int).Sub(L, two252)
+		cands := []*big.Int{two252, new(big.Int).Add(two252, big.NewInt(1)), new(big.Int).Sub(L, big.NewInt(1)), new(big.Int).Sub(L, big.NewInt(2)),
+			new(big.Int).Sub(two252, big.NewInt(1))}
+		for k := 0; k < c.Pick(4, 40); k++ {
+			cands = append(cands, new(big.Int).Add(two252, new(big.Int).Mod(new(big.Int).SetBytes(r.Bytes(40)), span)))
+		}
+		for _, S := range cands {
+			R := edEncode(edMul(S, *B))
+			msg := r.Bytes(r.IntN(40))
+			sig := append(append([]byte{}, R...), le(S)...)
+			c.Direct(stded.Verify(ident, msg, sig), "harness: the large-S signature is not valid in crypto/ed25519", map[string]any{"S": bigHex(S)})
+			verify("largeS", ident, msg, sig)
+			verify("largeS-order2-key", unhx("ec"+strings.Repeat("ff", 30)+"7f"), msg, sig)
+		}
 	}
 	// a valid key, then a key that does not decode, offered repeatedly with a signature valid under the first
 	{
